@@ -59,10 +59,25 @@ JudgeCall(e) ==
       Tag(OnePerKey(st.added), "Ext.OneBlockPerProposalKey") \o
       Tag(Len(st.added) <= 1, "Ext.OneFinalisationPerSlot")
 
-(* at the end of a sequence: nothing moved after quiescence; shares that arrived early counted *)
+(* LateSharesCount with the admission taken from the observation: the node sent its own share for p,
+   i.e. its round 0 accepted the block *)
+ObservedLateSharesCount ==
+  \A p \in Props : (p \in emitted /\ Admitted(p) /\ Cardinality(SendersBeforeTimeout(HashOf(p))) >= KThr)
+                      => HashOf(p) \in Range(added)
+(* every proposal that the reference admits was admitted by the node (the harness' proposals are valid) *)
+ProposalsAdmitted == \A p \in Props : Admitted(p) => p \in emitted
+
+(* at the end of a sequence: nothing moved after quiescence; shares that arrived early counted.
+   A replay that took longer than the party time-out allows (the machine was starved) is not judged. *)
 JudgeEnd(e) ==
+  IF e.slow THEN <<>>
+  ELSE
   Tag(/\ ObsParties(e.state) = parties /\ ObsFinished(e.state) = finished /\ e.state.added = added, "Ext.ChangeAfterQuiescence") \o
-  Tag(LateSharesCount, "Ext.LateSharesCount")
+  Tag(ProposalsAdmitted, "Ext.ValidProposalAdmitted") \o
+  (* with messages of a faulty member in the sequence this is C15's third clause: a faulty member cannot
+     keep a block from finalising that the node accepted and threshold-many members validly signed;
+     without them it is the extension's statement about early shares *)
+  Tag(ObservedLateSharesCount, IF FaultyPresent THEN "Inv.FaultyMemberCannotBlockFinalisation" ELSE "Ext.LateSharesCount")
 
 JudgeStart(e) == Tag(e.k = KThr, "Ext.Start.threshold")
 
